@@ -56,6 +56,8 @@ func runC14(p *Prog, r *Report) {
 	c20Index(p, r)
 	freshPerIteration(p, r, "D4-conversion", "converter", "ToCDX", "Component")
 	freshPerIteration(p, r, "D4-conversion", "converter", "ToSPDX23", "Package")
+	protoConvertersKeepRecords(p, r, "D4-conversion")
+	locationCountCases(p, r, "D4-conversion")
 	r.Rule("D8-input-untouched", "the converters do not modify the scan result they convert")
 	inputsNotModified(p, r, "D8-input-untouched", "converter", "binary/proto")
 	r.Rule("D7-wellformed-omissions", "records without a name or version are left out exactly where the formats' audited omissions say (shared with C03 D3)")
